@@ -37,9 +37,10 @@ EXTENDS Naturals, Sequences, FiniteSets
 
 CONSTANTS MaxN,               \* jobs: n \in 0..MaxN
           MaxK,               \* concurrency: k \in 1..MaxK
-          AtomicDoneRelease   \* BOOLEAN
+          AtomicDoneRelease,  \* BOOLEAN
+          PPChoices           \* subset of BOOLEAN: is a post-processor configured (p.pp != nil)
 
-VARIABLES n, k,          \* the call's parameters, fixed in Init
+VARIABLES n, k, hasPP,   \* the call's parameters, fixed in Init
           dpc,           \* dispatcher pc
           i,             \* index of the job the loop is at
           got,           \* job whose error the dispatcher received (0 = none)
@@ -51,16 +52,17 @@ VARIABLES n, k,          \* the call's parameters, fixed in Init
           files,         \* files[j]: sequence of contents written under job j's path
           ret            \* "none" = not returned, "ok", "err" (then got = job whose error is returned)
 
-vars == <<n, k, dpc, i, got, processing, errs, wg, wpc, ppres, wres, files, ret>>
+vars == <<n, k, hasPP, dpc, i, got, processing, errs, wg, wpc, ppres, wres, files, ret>>
 
 Jobs == 1..n
 PP(j) == j + 100        \* post-processed content of job j (job j's raw content is j)
+Out(j) == IF hasPP THEN PP(j) ELSE j   \* what must end up under job j's path
 
 DPcs == {"select", "acquired", "spawn", "errRecv", "errWaited", "wait", "waited",
          "finalErr", "finalNone", "returned"}
 WPcs == {"none", "start", "inpp", "ppDone", "inwr", "writeDone", "errSent", "done", "rel", "exit"}
 
-TypeOK == /\ n \in 0..MaxN /\ k \in 1..MaxK
+TypeOK == /\ n \in 0..MaxN /\ k \in 1..MaxK /\ hasPP \in PPChoices
           /\ dpc \in DPcs /\ i \in 1..(n + 1) /\ got \in 0..n
           /\ processing \in 0..k
           /\ errs \in Seq(Jobs) /\ Len(errs) <= n
@@ -68,10 +70,10 @@ TypeOK == /\ n \in 0..MaxN /\ k \in 1..MaxK
           /\ wpc \in [Jobs -> WPcs]
           /\ ppres \in [Jobs -> {"none", "ok", "fail"}]
           /\ wres \in [Jobs -> {"none", "ok", "fail"}]
-          /\ \A j \in Jobs : files[j] \in {<<>>, <<PP(j)>>}
+          /\ \A j \in Jobs : files[j] \in {<<>>, <<Out(j)>>}
           /\ ret \in {"none", "ok", "err"}
 
-Init == /\ n \in 0..MaxN /\ k \in 1..MaxK
+Init == /\ n \in 0..MaxN /\ k \in 1..MaxK /\ hasPP \in PPChoices
         /\ dpc = IF n = 0 THEN "wait" ELSE "select"
         /\ i = 1 /\ got = 0 /\ processing = 0 /\ errs = <<>> /\ wg = 0
         /\ wpc = [j \in 1..n |-> "none"]
@@ -83,67 +85,69 @@ Init == /\ n \in 0..MaxN /\ k \in 1..MaxK
 (************************** dispatcher ************************************)
 DAcquire == /\ dpc = "select" /\ processing < k
             /\ processing' = processing + 1 /\ dpc' = "acquired"
-            /\ UNCHANGED <<n, k, i, got, errs, wg, wpc, ppres, wres, files, ret>>
+            /\ UNCHANGED <<n, k, hasPP, i, got, errs, wg, wpc, ppres, wres, files, ret>>
 
 DRecvErr == /\ dpc = "select" /\ errs # <<>>
             /\ got' = Head(errs) /\ errs' = Tail(errs) /\ dpc' = "errRecv"
-            /\ UNCHANGED <<n, k, i, processing, wg, wpc, ppres, wres, files, ret>>
+            /\ UNCHANGED <<n, k, hasPP, i, processing, wg, wpc, ppres, wres, files, ret>>
 
 DAdd == /\ dpc = "acquired"
         /\ wg' = wg + 1 /\ dpc' = "spawn"
-        /\ UNCHANGED <<n, k, i, got, processing, errs, wpc, ppres, wres, files, ret>>
+        /\ UNCHANGED <<n, k, hasPP, i, got, processing, errs, wpc, ppres, wres, files, ret>>
 
 DSpawn == /\ dpc = "spawn"
           /\ wpc' = [wpc EXCEPT ![i] = "start"]
           /\ i' = i + 1
           /\ dpc' = IF i + 1 > n THEN "wait" ELSE "select"
-          /\ UNCHANGED <<n, k, got, processing, errs, wg, ppres, wres, files, ret>>
+          /\ UNCHANGED <<n, k, hasPP, got, processing, errs, wg, ppres, wres, files, ret>>
 
 DErrWait == /\ dpc = "errRecv" /\ wg = 0
             /\ dpc' = "errWaited"
-            /\ UNCHANGED <<n, k, i, got, processing, errs, wg, wpc, ppres, wres, files, ret>>
+            /\ UNCHANGED <<n, k, hasPP, i, got, processing, errs, wg, wpc, ppres, wres, files, ret>>
 
 DErrReturn == /\ dpc = "errWaited"
               /\ ret' = "err" /\ dpc' = "returned"
-              /\ UNCHANGED <<n, k, i, got, processing, errs, wg, wpc, ppres, wres, files>>
+              /\ UNCHANGED <<n, k, hasPP, i, got, processing, errs, wg, wpc, ppres, wres, files>>
 
 DWait == /\ dpc = "wait" /\ wg = 0
          /\ dpc' = "waited"
-         /\ UNCHANGED <<n, k, i, got, processing, errs, wg, wpc, ppres, wres, files, ret>>
+         /\ UNCHANGED <<n, k, hasPP, i, got, processing, errs, wg, wpc, ppres, wres, files, ret>>
 
 DFinal == /\ dpc = "waited"
           /\ IF errs # <<>>
                THEN got' = Head(errs) /\ errs' = Tail(errs) /\ dpc' = "finalErr"
                ELSE dpc' = "finalNone" /\ UNCHANGED <<got, errs>>
-          /\ UNCHANGED <<n, k, i, processing, wg, wpc, ppres, wres, files, ret>>
+          /\ UNCHANGED <<n, k, hasPP, i, processing, wg, wpc, ppres, wres, files, ret>>
 
 DFinalReturn == /\ dpc \in {"finalErr", "finalNone"}
                 /\ ret' = IF dpc = "finalErr" THEN "err" ELSE "ok"
                 /\ dpc' = "returned"
-                /\ UNCHANGED <<n, k, i, got, processing, errs, wg, wpc, ppres, wres, files>>
+                /\ UNCHANGED <<n, k, hasPP, i, got, processing, errs, wg, wpc, ppres, wres, files>>
 
 Dispatcher == DAcquire \/ DRecvErr \/ DAdd \/ DSpawn \/ DErrWait \/ DErrReturn
               \/ DWait \/ DFinal \/ DFinalReturn
 
 (***************************** worker j ***********************************)
-WPPBegin(j) == /\ wpc[j] = "start"
+WPPBegin(j) == /\ hasPP
+               /\ wpc[j] = "start"
                /\ wpc' = [wpc EXCEPT ![j] = "inpp"]
-               /\ UNCHANGED <<n, k, dpc, i, got, processing, errs, wg, ppres, wres, files, ret>>
+               /\ UNCHANGED <<n, k, hasPP, dpc, i, got, processing, errs, wg, ppres, wres, files, ret>>
 
 WPPEnd(j, ok) == /\ wpc[j] = "inpp"
                  /\ wpc' = [wpc EXCEPT ![j] = "ppDone"]
                  /\ ppres' = [ppres EXCEPT ![j] = IF ok THEN "ok" ELSE "fail"]
-                 /\ UNCHANGED <<n, k, dpc, i, got, processing, errs, wg, wres, files, ret>>
+                 /\ UNCHANGED <<n, k, hasPP, dpc, i, got, processing, errs, wg, wres, files, ret>>
 
-WWriteBegin(j) == /\ wpc[j] = "ppDone" /\ ppres[j] = "ok"
+WWriteBegin(j) == /\ \/ wpc[j] = "ppDone" /\ ppres[j] = "ok"
+                     \/ wpc[j] = "start" /\ ~hasPP           \* if p.pp != nil { ... } skipped
                   /\ wpc' = [wpc EXCEPT ![j] = "inwr"]
-                  /\ UNCHANGED <<n, k, dpc, i, got, processing, errs, wg, ppres, wres, files, ret>>
+                  /\ UNCHANGED <<n, k, hasPP, dpc, i, got, processing, errs, wg, ppres, wres, files, ret>>
 
 WWriteEnd(j, ok) == /\ wpc[j] = "inwr"
                     /\ wpc' = [wpc EXCEPT ![j] = "writeDone"]
                     /\ wres' = [wres EXCEPT ![j] = IF ok THEN "ok" ELSE "fail"]
-                    /\ files' = IF ok THEN [files EXCEPT ![j] = Append(@, PP(j))] ELSE files
-                    /\ UNCHANGED <<n, k, dpc, i, got, processing, errs, wg, ppres, ret>>
+                    /\ files' = IF ok THEN [files EXCEPT ![j] = Append(@, Out(j))] ELSE files
+                    /\ UNCHANGED <<n, k, hasPP, dpc, i, got, processing, errs, wg, ppres, ret>>
 
 WantsErrSend(j) == \/ wpc[j] = "ppDone" /\ ppres[j] = "fail"
                    \/ wpc[j] = "writeDone" /\ wres[j] = "fail"
@@ -152,31 +156,31 @@ WErrSend(j) == /\ WantsErrSend(j)
                /\ Len(errs) < n                 \* cap(errs) = len(jobs); blocks when full
                /\ errs' = Append(errs, j)
                /\ wpc' = [wpc EXCEPT ![j] = "errSent"]
-               /\ UNCHANGED <<n, k, dpc, i, got, processing, wg, ppres, wres, files, ret>>
+               /\ UNCHANGED <<n, k, hasPP, dpc, i, got, processing, wg, ppres, wres, files, ret>>
 
 WToDone(j) == /\ \/ wpc[j] = "writeDone" /\ wres[j] = "ok"
                  \/ wpc[j] = "errSent"
               /\ wpc' = [wpc EXCEPT ![j] = "done"]
-              /\ UNCHANGED <<n, k, dpc, i, got, processing, errs, wg, ppres, wres, files, ret>>
+              /\ UNCHANGED <<n, k, hasPP, dpc, i, got, processing, errs, wg, ppres, wres, files, ret>>
 
 WDone(j) == /\ ~AtomicDoneRelease
             /\ wpc[j] = "done"
             /\ wg' = wg - 1
             /\ wpc' = [wpc EXCEPT ![j] = "rel"]
-            /\ UNCHANGED <<n, k, dpc, i, got, processing, errs, ppres, wres, files, ret>>
+            /\ UNCHANGED <<n, k, hasPP, dpc, i, got, processing, errs, ppres, wres, files, ret>>
 
 WRelease(j) == /\ wpc[j] = "rel"
                /\ processing > 0                \* a receive on an empty channel would block
                /\ processing' = processing - 1
                /\ wpc' = [wpc EXCEPT ![j] = "exit"]
-               /\ UNCHANGED <<n, k, dpc, i, got, errs, wg, ppres, wres, files, ret>>
+               /\ UNCHANGED <<n, k, hasPP, dpc, i, got, errs, wg, ppres, wres, files, ret>>
 
 WDoneRelease(j) == /\ AtomicDoneRelease
                    /\ wpc[j] = "done"
                    /\ processing > 0
                    /\ wg' = wg - 1 /\ processing' = processing - 1
                    /\ wpc' = [wpc EXCEPT ![j] = "exit"]
-                   /\ UNCHANGED <<n, k, dpc, i, got, errs, ppres, wres, files, ret>>
+                   /\ UNCHANGED <<n, k, hasPP, dpc, i, got, errs, ppres, wres, files, ret>>
 
 Worker(j) == \/ WPPBegin(j) \/ WWriteBegin(j) \/ WErrSend(j) \/ WToDone(j)
              \/ WDone(j) \/ WRelease(j) \/ WDoneRelease(j)
@@ -198,7 +202,7 @@ InFlight(j) == wpc[j] = "inwr"
 
 \* success => every job post-processed and written exactly once with its own content
 SuccessMeansAllWritten ==
-    (ret = "ok") => \A j \in Jobs : ppres[j] = "ok" /\ wres[j] = "ok" /\ files[j] = <<PP(j)>>
+    (ret = "ok") => \A j \in Jobs : ppres[j] = (IF hasPP THEN "ok" ELSE "none") /\ wres[j] = "ok" /\ files[j] = <<Out(j)>>
 \* any failed step => an error is returned, and it is the error of a job that failed
 FailureMeansError ==
     Returned => /\ (\E j \in Jobs : Failed(j)) => ret # "ok"
@@ -233,7 +237,7 @@ ASt(j) == CASE wpc[j] \in {"none", "start"} -> "idle"
             [] wpc[j] = "inwr" -> "inwr"
             [] OTHER -> IF ppres[j] = "fail" THEN "ppfail"
                         ELSE IF wres[j] = "ok" THEN "wrok" ELSE "wrfail"
-A == INSTANCE PersistSpec WITH MaxJobs <- MaxN,
+A == INSTANCE PersistSpec WITH MaxJobs <- MaxN, withPP <- hasPP,
                                st <- [j \in Jobs |-> ASt(j)],
                                ret <- ret
 Refines == A!ASpec
